@@ -197,6 +197,21 @@ pub fn identify(e: &ModuleGraphError) -> (FailureId, String) {
   }
 }
 
+thread_local! {
+  /// (referrer, specifier text) pairs that the *sources* import statically
+  /// (generator knowledge): the evaluator treats them as static edges even
+  /// if the graph's `is_dynamic` flag says otherwise
+  static STATIC_EDGES: std::cell::RefCell<BTreeSet<(String, String)>> = const { std::cell::RefCell::new(BTreeSet::new()) };
+}
+
+pub fn set_static_edges(edges: BTreeSet<(String, String)>) {
+  STATIC_EDGES.with(|s| *s.borrow_mut() = edges);
+}
+
+fn dep_dynamic(referrer: &ModuleSpecifier, text: &str, dep: &deno_graph::Dependency) -> bool {
+  dep.is_dynamic && !STATIC_EDGES.with(|s| s.borrow().contains(&(referrer.to_string(), text.to_string())))
+}
+
 pub fn evaluate(
   graph: &ModuleGraph,
   roots: &[ModuleSpecifier],
@@ -336,19 +351,20 @@ pub fn evaluate(
           m.dependencies()
         };
         for (text, dep) in deps {
-          if dep.is_dynamic && !o.follow_dynamic {
+          let dynamic = dep_dynamic(m.specifier(), text, dep);
+          if dynamic && !o.follow_dynamic {
             continue;
           }
-          check_res(&mut res, text, &dep.maybe_code, dep.is_dynamic);
+          check_res(&mut res, text, &dep.maybe_code, dynamic);
           if check_types {
-            check_res(&mut res, text, &dep.maybe_type, dep.is_dynamic);
+            check_res(&mut res, text, &dep.maybe_type, dynamic);
           }
         }
         if skip_deps_of.contains(s.as_str()) {
           continue;
         }
-        for dep in deps.values() {
-          if dep.is_dynamic && !o.follow_dynamic {
+        for (text, dep) in deps {
+          if dep_dynamic(m.specifier(), text, dep) && !o.follow_dynamic {
             continue;
           }
           if let Some(t) = dep.maybe_code.maybe_specifier() {
@@ -428,8 +444,8 @@ pub fn visited_fixpoint(
           } else {
             m.dependencies()
           };
-          for dep in deps.values() {
-            if dep.is_dynamic && !o.follow_dynamic {
+          for (text, dep) in deps {
+            if dep_dynamic(m.specifier(), text, dep) && !o.follow_dynamic {
               continue;
             }
             if let Some(t) = dep.maybe_code.maybe_specifier() {
